@@ -18,6 +18,10 @@ RULE = ("documents: hand-made small documents for every syntactic feature (edits
         "documents parsed WITHOUT locations containing structurally equal siblings (selections, arguments, directives, list values, object fields, definitions; edits at every occurrence, checked by identity; child list objects never edited in place); nested chains and ChainedVisitor subclasses with their own enter/leave (recording, skipping) at every position of an outer chain; DispatchingVisitor class hierarchies created per case and used in six orders (base then subclass, reverse, siblings, subclass of subclass); chains of 2..4 recorders where every member in turn raises SkipNode at every node kind (all calls on all other nodes compared); chains of 1..3 (plain and Dispatching) members configured through the constructor or by assigning / extending / re-ordering `visitors` afterwards (also from a subclass), sub-tree roots, wrong-kind replacements. "
         "non-trivial = distinct (document, visitor script) whose visit enters >= 3 nodes")
 ASSUMPTIONS = [
+    "replacement by a node of ANOTHER class admitted at that position (selection / value / type reference / definition kinds): the statement is read as "
+    "`the replacement is substituted at exactly that position, leave is called once with it, nothing else changes, nothing raises`; whether the "
+    "replacement's OWN children are traversed is not stated - the oracle accepts both, the model follows the code (with fix C18-W7: traversed by the "
+    "method of the replacement's class; table key `crossKind` observed on the real code)",
     "the model's `chained vs` is a function of the LIVE `visitors` list at the time of each call (what the documented attribute says); chains are therefore also configured by assigning / extending / re-ordering `visitors` after construction and from subclasses",
     "trees are alias-free (no object occurs twice), as produced by the parser; replacement nodes are fresh objects",
     "enter only changes the node it is given (or returns a fresh one); a visitor that deletes or skips does not also mutate; leave does not mutate",
@@ -526,6 +530,8 @@ def direct_oracle(ctx, text, kw, fail, exhaustive, big=False):
     for k in ((2, 3, 4) if exhaustive else (ctx.rng.choice([2, 3, 4]),)):
         # every node kind with 3 members (every member raising in turn); 2 kinds with 2 and with 4 members
         O.check_chain_skips(ctx, text, kw, fail, k, sp if (k == 3 or not exhaustive) else ctx.rng.sample(sp, min(len(sp), 2)))
+    O.check_cross_kind(ctx, text, kw, fail, range(n) if exhaustive else sorted(ctx.rng.sample(range(n), min(n, 6))), ctx.rng,
+                       all_kinds=exhaustive and n <= 14)
     for variant in (("plain", "tracing", "skipping") if exhaustive else (ctx.rng.choice(["plain", "tracing", "skipping"]),)):
         for position in ((0, 1, 2) if exhaustive else (ctx.rng.randrange(3),)):
             O.check_chain_nested(ctx, text, kw, fail, position, variant, ctx.rng.randrange(len(entered)))
@@ -581,7 +587,7 @@ def compare(ctx, text, kw, case, out, ans):
         # wrong-kind replacements: a missing attribute is AttributeError, or TypeError when the class attribute
         # `SupportDirectives.directives = NotImplemented` is found instead: only "both raise" is compared
         ro, ra = out.get("err"), ans.get("err")
-        if ro in ("AttributeError", "TypeError") and ra in ("AttributeError", "TypeError"):
+        if what == "wrong-kind" and ro in ("AttributeError", "TypeError") and ra in ("AttributeError", "TypeError"):
             ro = ra
         if ro != ra:
             diff = "outcome"
@@ -634,6 +640,8 @@ def replay(ctx, data):
             O.check_dispatching(ctx, text, kw, fail)
         if "edit" in inp and "chain" not in inp:
             O.check_edits(ctx, text, kw, fail, positions=[inp["pos"]])
+        elif "cross" in inp:
+            O.check_cross_kind(ctx, text, kw, fail, [inp["pos"]], ctx.rng, all_kinds=True)
         elif "nested" in inp:
             O.check_chain_nested(ctx, text, kw, fail, inp["position"], inp["nested"], inp["pos"])
         elif "skips" in inp:
